@@ -22,8 +22,8 @@ ASSUMPTIONS = [
     "at the class-field position the two classes differ by construction, so the field values are compared",
 ]
 PLAN = {"quick": dict(cases=2600, inputs=14), "thorough": dict(cases=60000, inputs=30)}
-FLOORS = {"quick": {"pairs_compared": 50000, "chain_position_combos": 120, "string_ref_calls": 5000, "builds": 2200, "codec_pairs_compared": 9000, "bytes_like_pairs_compared": 5000, "bytes_chain_combos": 40},
-          "thorough": {"pairs_compared": 2000000, "chain_position_combos": 300, "string_ref_calls": 200000, "builds": 50000, "codec_pairs_compared": 350000, "bytes_like_pairs_compared": 100000, "bytes_chain_combos": 80}}
+FLOORS = {"quick": {"qualified_expression_refs": 60, "pairs_compared": 50000, "chain_position_combos": 120, "string_ref_calls": 5000, "builds": 2200, "codec_pairs_compared": 9000, "bytes_like_pairs_compared": 5000, "bytes_chain_combos": 40},
+          "thorough": {"qualified_expression_refs": 1500, "pairs_compared": 2000000, "chain_position_combos": 300, "string_ref_calls": 200000, "builds": 50000, "codec_pairs_compared": 350000, "bytes_like_pairs_compared": 100000, "bytes_chain_combos": 80}}
 
 NAMED = ["newtype", "alias", "stralias"]
 POSITIONS = ["root", "coll", "mapval", "tuple", "union", "field", "pair", "pair"]
@@ -154,7 +154,13 @@ def run_case(sh, i, plan):
             cands += ["strref", "fwdref"]
         kind = rng.choice(cands)
         if last and force_root_ref:
-            kind = rng.choice(["strref", "strref", "fwdref", "strref_dotted", "strref_dotted", "strexpr"])
+            kind = rng.choice(["strref", "strref", "fwdref", "strref_dotted", "strref_dotted", "strexpr", "strexpr"])
+        if kind == "strexpr" and pos == "root" and rng.random() < 0.6:
+            # the reference is the text of a QUALIFIED form: "typing.ClassVar[X]" / "typing.Final[X]"
+            q = rng.choice(["classvar", "final"])
+            chain.append(q)
+            w = gen.wrap_of(w, q)
+            sh.count("qualified_expression_refs")
         chain.append(kind)
         w = gen.wrap_of(w, kind)
     if pos == "pair":
